@@ -24,17 +24,29 @@ class ControlRequestHandler(USBRequestHandler):
                                 of acknowledged.
             """
 
+        # Handshakes are broadcast to every endpoint; so the host ACKing another endpoint's IN data
+        # looks the same to us as it ACKing our status stage. Keep track of whether the most recent thing
+        # on the bus was our own status-stage ZLP, so we only complete the request on the matching ACK.
+        awaiting_status_ack = Signal()
+
         # Provide an response to the STATUS stage.
         with m.If(self.interface.status_requested):
 
             # If our stall condition is met, stall; otherwise, send a ZLP [USB 8.5.3].
             with m.If(stall_condition):
                 m.d.comb += self.interface.handshakes_out.stall.eq(1)
+                m.next = 'IDLE'
             with m.Else():
                 m.d.comb += self.send_zlp()
+                m.d.usb  += awaiting_status_ack.eq(1)
+
+        # Any new token means the host has moved on without ACKing our status stage; it'll retry later.
+        with m.Elif(self.interface.tokenizer.new_token):
+            m.d.usb += awaiting_status_ack.eq(0)
 
         # Accept the relevant value after the packet is ACK'd...
-        with m.If(self.interface.handshakes_in.ack):
+        with m.If(self.interface.handshakes_in.ack & awaiting_status_ack):
+            m.d.usb  += awaiting_status_ack.eq(0)
             m.d.comb += [
                 write_strobe      .eq(1),
                 new_value_signal  .eq(self.interface.setup.value)
